@@ -204,7 +204,7 @@ func (sc *SpecCtx) eval(e *SExpr) (*Val, error) {
 			}
 			hi = v.T
 		}
-		return &Val{T: sx("mk-slice", sx("sl-base", x.T), sx("+", sx("sl-off", x.T), lo), sx("-", hi, lo), sx("-", sx("sl-cap", x.T), lo)), Ty: x.Ty}, nil
+		return &Val{T: sx("mk-slice", sx("sl-base", x.T), sx("ix", sx("sl-off", x.T), lo), sx("-", hi, lo), sx("-", sx("sl-cap", x.T), lo)), Ty: x.Ty}, nil
 	case SQuant:
 		sub := *sc
 		sub.qvars = map[string]bool{}
